@@ -18,6 +18,9 @@ type Refil struct {
 	Kind    string             `json:"kind"` // subf | clonef
 	Filters []world.FilterSpec `json:"filters"`
 	Touch   bool               `json:"touch"` // one parent update between the refilters (must not disturb the next delta)
+	// Pre[i]: parent writes (apply, or delete when Labels is nil and RV is "del")
+	// made and drained before the i-th Refilter of a long sequence
+	Pre [][]world.Spec `json:"pre,omitempty"`
 	Sim     SimCfg             `json:"sim"`
 }
 
@@ -52,6 +55,28 @@ func genC07(g GenCtx) interface{} {
 		if !seen[s.Key()] {
 			seen[s.Key()] = true
 			sc.Init = append(sc.Init, s)
+		}
+	}
+	if g.Idx%10 == 9 {
+		// long-lived node: 6..40 refilters over a small pool of filters (so that
+		// earlier filters come back, equal ones repeat) with parent changes drained
+		// in between - anything remembered from an earlier refilter must still be
+		// right at the N-th
+		pool := []world.FilterSpec{sc.Filters[0], sc.Filters[1], randFilter(rng), randFilterTerm(rng, 2)}
+		pool = append(pool, relatedFilter(rng, pool[rng.Intn(len(pool))]))
+		sc.Filters = sc.Filters[:1]
+		sc.Pre = [][]world.Spec{nil}
+		for k := 6 + rng.Intn(35); k > 0; k-- {
+			sc.Filters = append(sc.Filters, pool[rng.Intn(len(pool))])
+			var pre []world.Spec
+			for w := rng.Intn(3); w > 0; w-- {
+				o := world.Spec{NS: pick(rng, "n1", "n2", ""), Name: pick(rng, "a", "b", "c"), Labels: randLabels(rng)}
+				if rng.Intn(4) == 0 {
+					o.Labels, o.RV = nil, "del"
+				}
+				pre = append(pre, o)
+			}
+			sc.Pre = append(sc.Pre, pre)
 		}
 	}
 	sc.Kind = pick(rng, "subf", "subf", "clonef")
@@ -106,6 +131,17 @@ func runC07(sci interface{}) {
 		if sc.Touch && step == 1 {
 			// a parent change between two refilters, drained before the next one
 			srv.Apply(world.Spec{NS: "n1", Name: "a", Labels: map[string]string{"app": "a", "tier": "x"}})
+			detsim.Settle()
+			h.CheckTree("")
+		}
+		if step+1 < len(sc.Pre) && len(sc.Pre[step+1]) > 0 {
+			for _, o := range sc.Pre[step+1] {
+				if o.RV == "del" {
+					srv.Delete(o.Key())
+				} else {
+					srv.Apply(world.Spec{NS: o.NS, Name: o.Name, Labels: o.Labels})
+				}
+			}
 			detsim.Settle()
 			h.CheckTree("")
 		}
